@@ -8,11 +8,17 @@ theorem tie_h_agent_Agent_Run : Extracted.Agent.h_agent_Agent_Run = Canon.Agent.
 theorem tie_h_agent_client_GetLatestStatus : Extracted.Agent.h_agent_client_GetLatestStatus = Canon.Agent.h_agent_client_GetLatestStatus := by decide +kernel
 theorem tie_h_agent_client_currentStatus : Extracted.Agent.h_agent_client_currentStatus = Canon.Agent.h_agent_client_currentStatus := by decide +kernel
 theorem tie_h_agent_Status_CorrectRunningStatus : Extracted.Agent.h_agent_Status_CorrectRunningStatus = Canon.Agent.h_agent_Status_CorrectRunningStatus := by decide +kernel
+theorem tie_h_agent_Agent_signal : Extracted.Agent.h_agent_Agent_signal = Canon.Agent.h_agent_Agent_signal := by decide +kernel
+theorem tie_h_agent_Agent_Signal : Extracted.Agent.h_agent_Agent_Signal = Canon.Agent.h_agent_Agent_Signal := by decide +kernel
+theorem tie_h_agent_Agent_HandleHTTP : Extracted.Agent.h_agent_Agent_HandleHTTP = Canon.Agent.h_agent_Agent_HandleHTTP := by decide +kernel
 
 #print axioms tie_h_agent_Agent_Status
 #print axioms tie_h_agent_Agent_Run
 #print axioms tie_h_agent_client_GetLatestStatus
 #print axioms tie_h_agent_client_currentStatus
 #print axioms tie_h_agent_Status_CorrectRunningStatus
+#print axioms tie_h_agent_Agent_signal
+#print axioms tie_h_agent_Agent_Signal
+#print axioms tie_h_agent_Agent_HandleHTTP
 
 end BdModel.Tie.Agent
